@@ -609,12 +609,38 @@ def rule_fm_mark_distance(prog, fixture=False):
         for n, vec, arg in _push_sites(fn):
             key = "%s::%s::mark-distance" % (fn.relfile(), fn.qn)
             ok = False
+            narrowed = None
             for l, rel, rr in (g.cmps(n) or []):
                 if rel not in ("<", "<="):
                     continue
                 ids = flow.decl_ids(l)
-                if any(sv_ in ids and cur in ids for sv_, cur in saved) and folded(rr) is not None:
+                # the distance may first be put into a local (possibly scaled by a constant): follow it,
+                # but a local narrower than the positions it is computed from loses the high part
+                ls = strip_all(l)
+                if ls is not None and ls.get("k") == "DeclRefExpr" and ls.get("dk") == "Var":
+                    for v in fn.walk():
+                        if v.get("k") == "VarDecl" and v.get("d") == ls.get("d") and v.get("c"):
+                            ids2 = flow.decl_ids(v["c"][0])
+                            if any(sv_ in ids2 and cur in ids2 for sv_, cur in saved):
+                                if (v.get("w") or 0) >= 32:
+                                    ids = ids | ids2
+                                else:
+                                    narrowed = v
+                # the bound is a constant, directly or as a constant-initialised local
+                bound_const = folded(rr) is not None
+                if not bound_const:
+                    rs = strip_all(rr)
+                    if rs is not None and rs.get("k") == "DeclRefExpr":
+                        for v in fn.walk():
+                            if v.get("k") == "VarDecl" and v.get("d") == rs.get("d") and v.get("c") and folded(v["c"][0]) is not None:
+                                bound_const = True
+                if any(sv_ in ids and cur in ids for sv_, cur in saved) and bound_const:
                     ok = True
+            if not ok and narrowed is not None:
+                r.add(key, fn.loc(n), False, "the distance from the ID field is kept in `%s`, a %d-bit value: distances "
+                      "are compared modulo %d, so a data field a multiple of that further on is accepted under this ID" %
+                      (narrowed.get("n"), narrowed.get("w") or 0, 1 << (narrowed.get("w") or 0)))
+                continue
             r.add(key, fn.loc(n), ok, "distance from ID field to data mark is bounded" if ok else
                   "nothing bounds the distance between the verified ID field and the data mark that is accepted: if "
                   "a sector's own data mark is damaged, the data field of the next sector is returned under this ID")
